@@ -9,7 +9,7 @@ import (
 
 // ---- pretty.Writer: line breaking and alignment ----
 
-const numPShapes = 11
+const numPShapes = 12
 
 // pLeaf: nil, a symbolic int of 1..3 characters, a symbolic bool or a
 // symbolic one byte string (the printed width of a leaf is what alignment
@@ -47,6 +47,11 @@ func pTree(shape int) any {
 		return []any{pLeaf("a"), []any{}, map[string]any{}, pLeaf("b")}
 	case 7:
 		return []any{[]any{pLeaf("a"), pLeaf("b")}, []any{pLeaf("c"), pLeaf("d")}, []any{}}
+	case 11:
+		// rows of an aligned table whose second key has a symbolic printable
+		// byte: it may need quotes in SEN (raw order and printed order differ)
+		k := string([]byte{'b', vx.ByteIn("key", 0x20, 0x7e)})
+		return []any{map[string]any{"a": pLeaf("a"), k: pLeaf("b")}, map[string]any{"a": pLeaf("c"), k: pLeaf("d")}}
 	case 9, 10:
 		// two leaves at the nesting depths where the indentation reaches the
 		// end of the writer's constant run of spaces
